@@ -238,7 +238,7 @@ def check(P, R):
                 # ... and the test stands in front of the next read on every path: a byte that is not looked at for emptiness lets the scan go round for ever
                 tnodes = [tn for (tn, lab) in tests]
                 nxt_reads = [n for r2 in reads for n in g.node_of_stmt(r2)]
-                skipped = [m for (s_, lab_) in cn.succ if lab_ != 'exc' for m in nxt_reads if m in g.reachable_from([s_], avoid_nodes=tnodes)]
+                skipped = [m for (s_, lab_) in cn.succ if lab_ != 'exc' and s_ not in tnodes for m in nxt_reads if m in g.reachable_from([s_], avoid_nodes=tnodes)]
                 R.ob('C05.b', f, c, not skipped, text=f'`{short(c)}`: the emptiness test of `{var}` stands before the next read on every path', detail='' if not skipped else
                      f'after `{short(c)}` the next read (`{short(skipped[0].ast)}`) can be reached without `{var}` having been tested for emptiness: at the end of a truncated '
                      f'stream read() keeps returning b\'\' and the scan never ends - the request is neither accepted nor refused',
